@@ -68,3 +68,16 @@ func (p *Parser) VerifScanner() *Scanner { return p.s.s }
 
 // VerifTokenPending reports how many tokens are currently pushed back.
 func (p *Parser) VerifTokenPending() int { return p.s.n }
+
+// verifPeeks records the position of every rune the parser looked at through
+// peekRune (raw-rune lookahead), since the last VerifResetPeeks.
+var verifPeeks []Pos
+
+func verifNotePeek(p *Parser) {
+	_, pos := p.s.s.r.curr()
+	verifPeeks = append(verifPeeks, pos)
+}
+
+// VerifResetPeeks clears the peek log; VerifPeeks returns it.
+func VerifResetPeeks()  { verifPeeks = verifPeeks[:0] }
+func VerifPeeks() []Pos { return append([]Pos(nil), verifPeeks...) }
